@@ -9,7 +9,8 @@ package app
 //   queued on it.
 //
 // BOUND: all histories  store -> complete(A) -> renew x b -> migrate(A) -> renew x d -> complete(B)  with b, d in {0,1,2}
-// (9 histories), one replica, run on the real application through the real message handlers (real did:key signatures) and the
+// (9 histories; B completes under the first order listing its shard that accepts the completion), one replica; a second
+// clause (.late) runs the same histories with B completing only after the first paid period has ended; run on the real application through the real message handlers (real did:key signatures) and the
 // real sao/model end blockers until every paid period has ended. Labelled bounded; never counted as proved.
 
 import (
@@ -141,7 +142,7 @@ func (e *bmlEnv) listing() []string {
 	return bad
 }
 
-func bmlHistory(t *testing.T, before, during int) []string {
+func bmlHistory(t *testing.T, before, during int, late bool) []string {
 	re := newReplayEnv(t, 4)
 	e := &bmlEnv{replayEnv: re, t: t, spA: re.Addrs[2], spB: re.Addrs[3], h: re.Height}
 	e.owner = replayDid(t, bmlSecret)
@@ -166,6 +167,9 @@ func bmlHistory(t *testing.T, before, during int) []string {
 		e.renew()
 	}
 	e.to(e.h + 20)
+	if late {
+		e.to(11 + 3600 + 50)
+	}
 	var ms *ordertypes.Shard
 	for _, s := range e.App.OrderKeeper.GetAllShard(e.Ctx) {
 		s := s
@@ -185,8 +189,37 @@ func bmlHistory(t *testing.T, before, during int) []string {
 			}
 		}
 	}
-	if err := e.complete(e.spB, listedIn); err != nil {
-		t.Fatalf("setup: completion of the migrated shard under order %d: %v", listedIn, err)
+	done := false
+	for _, o := range e.App.OrderKeeper.GetAllOrder(e.Ctx) {
+		lists := false
+		for _, id := range o.Shards {
+			if id == ms.Id {
+				lists = true
+			}
+		}
+		if !lists || done {
+			continue
+		}
+		cc, write := e.Ctx.CacheContext()
+		saved := e.Ctx
+		e.Ctx = cc
+		var err error
+		p := replayPanics(func() { err = e.complete(e.spB, o.Id) })
+		e.Ctx = saved
+		if p == nil && err == nil {
+			write()
+			done = true
+			t.Logf("history %d/%d late=%v: completed under order %d", before, during, late, o.Id)
+		} else {
+			t.Logf("history %d/%d late=%v: completion under order %d rejected: %v %v", before, during, late, o.Id, p, err)
+		}
+	}
+	_ = listedIn
+	if !done {
+		if !late {
+			t.Fatalf("setup: no completion of the migrated shard was accepted (%d/%d)", before, during)
+		}
+		return nil
 	}
 	var bad []string
 	for _, b := range e.listing() {
@@ -206,19 +239,29 @@ func bmlHistory(t *testing.T, before, during int) []string {
 }
 
 func TestBoundedCompleteMigrationListing(t *testing.T) {
+	bmlAll(t, false, "C13.complete.migrate.listing")
+}
+
+// the same histories with the new provider completing only after the first paid period has ended (the old shard has been
+// rotated into its renewal order by then); histories in which no completion is accepted any more are skipped
+func TestBoundedCompleteMigrationListingLate(t *testing.T) {
+	bmlAll(t, true, "C13.complete.migrate.listing.late")
+}
+
+func bmlAll(t *testing.T, late bool, clause string) {
 	n, total := 0, 0
 	var all []string
 	for before := 0; before <= 2; before++ {
 		for during := 0; during <= 2; during++ {
 			total++
-			bad := bmlHistory(t, before, during)
+			bad := bmlHistory(t, before, during, late)
 			if len(bad) == 0 {
 				n++
 			}
 			all = append(all, bad...)
 		}
 	}
-	t.Logf("BOUNDED-CHECK C13.complete.migrate.listing: %d of %d histories keep orders and shards consistent", n, total)
+	t.Logf("BOUNDED-CHECK %s: %d of %d histories keep orders and shards consistent", clause, n, total)
 	for _, b := range all {
 		t.Errorf("C13 violated (every shard an order lists exists / every shard is listed by the orders it names): %s", b)
 	}
